@@ -124,6 +124,8 @@ func (c *Ctx) failover(name string) *FO {
 	if fo.Err != nil {
 		return fo
 	}
+	c.curEngine = fo.E
+	fo.Paths = c.dropFeaturePaths(name+".Get", fo.Paths)
 	for obj, v := range fo.E.Params {
 		switch t := obj.Type().Underlying().(type) {
 		case *types.Pointer:
